@@ -646,4 +646,98 @@ example : headerValue wsgiServer [("Authorization_".toList, "Bearer tok".toList)
 #print axioms auth_duplicate_refused
 #print axioms headerValue_none_iff
 
+/-! ## Wave 5 — every state-touching call of a request runs after the token check of that request -/
+
+/-- a program whose first step is the check leaves the state alone when the credential is refused — whatever
+the calls behind the check would do -/
+theorem runProg_refused {σ : Type} (eff : String → σ → σ) (p : List CallEv) (h : orderOK p = true) (s : σ) :
+    (runProg eff false p s).1 = s ∧ (p ≠ [] → (runProg eff false p s).2 = 401) := by
+  cases p with
+  | nil => exact ⟨rfl, fun h => absurd rfl h⟩
+  | cons e rest =>
+    cases e with
+    | check => simp [runProg]
+    | touch f => simp [orderOK] at h
+
+/-- with the right token the whole program runs (sanity: the check does not stand in the way) -/
+theorem runProg_accepted_nil {σ : Type} (eff : String → σ → σ) (s : σ) : runProg eff true [] s = (s, 200) := rfl
+
+/-- the refused run executes exactly the calls of `refusedTrace` -/
+theorem runProg_refusedTrace {σ : Type} (eff : String → σ → σ) (p : List CallEv) (s : σ) :
+    (runProg eff false p s).1 = (runProg eff false (refusedTrace p) s).1 := by
+  induction p generalizing s with
+  | nil => rfl
+  | cons e rest ih =>
+    cases e with
+    | check => simp [runProg, refusedTrace]
+    | touch f => simp only [runProg, refusedTrace]; exact ih _
+
+theorem refusedTrace_of_ok (p : List CallEv) (h : orderOK p = true) : (refusedTrace p).all isCheck = true := by
+  cases p with
+  | nil => rfl
+  | cons e rest =>
+    cases e with
+    | check => rfl
+    | touch f => simp [orderOK] at h
+
+theorem runProg_counter_ge (ok : Bool) (p : List CallEv) (n : Nat) : n ≤ (runProg (fun _ m => m + 1) ok p n).1 := by
+  induction p generalizing n with
+  | nil => exact Nat.le_refl _
+  | cons e rest ih =>
+    cases e with
+    | check => simp only [runProg]; split
+               · exact ih n
+               · exact Nat.le_refl _
+    | touch f => simp only [runProg]; have := ih (n + 1); omega
+
+/-- a program that touches state before its first check changes state for a refused credential (the call
+counter as state) -/
+theorem runProg_witness (p : List CallEv) (h : orderOK p = false) :
+    (runProg (fun _ m => m + 1) false p 0).1 ≠ 0 := by
+  cases p with
+  | nil => simp [orderOK] at h
+  | cons e rest =>
+    cases e with
+    | check => simp [orderOK] at h
+    | touch f =>
+      simp only [runProg]
+      have := runProg_counter_ge false rest (0 + 1)
+      omega
+
+/-- the statement for the probed call table: on every non-public rule a refused credential changes nothing,
+whatever the traced functions do -/
+def CallsRefuse (rows : List CallRow) : Prop :=
+  ∀ r ∈ rows, publicRules.contains r.rule = false →
+    ∀ (σ : Type) (eff : String → σ → σ) (s : σ), (runProg eff false r.accepted s).1 = s
+
+theorem C15_calls_refuse (rows : List CallRow) (h : callsOK rows = true) : CallsRefuse rows := by
+  intro r hr hp σ eff s
+  unfold callsOK at h
+  rw [List.all_eq_true] at h
+  have := h r hr
+  simp only [rowOK, hp, Bool.false_or, Bool.and_eq_true] at this
+  exact (runProg_refused eff r.accepted this.1.1 s).1
+
+/-- Negation witness `state-call-before-token-check`: a non-public rule whose program enters a state-touching
+function before the token check. -/
+theorem C15_witness_call_order (rows : List CallRow) (i : Nat) (h : badRowAt rows i = true) : ¬ CallsRefuse rows := by
+  intro hf
+  unfold badRowAt at h
+  cases hr : rows[i]? with
+  | none => simp [hr] at h
+  | some r =>
+    simp only [hr, Bool.and_eq_true, Bool.not_eq_true'] at h
+    exact runProg_witness r.accepted h.2 (hf r (List.mem_of_getElem? hr) h.1 Nat (fun _ m => m + 1) 0)
+
+example : orderOK [.check, .touch "BptkServer._ensure_instance_exists", .check, .touch "InstanceManager.get_instance"] = true := by decide
+example : orderOK [.touch "InstanceManager._update_instance_timestamp", .check] = false := by decide
+example : refusedTrace [.touch "BptkServer._ensure_instance_exists", .touch "FileAdapter.load_instance", .check, .touch "x"]
+    = [.touch "BptkServer._ensure_instance_exists", .touch "FileAdapter.load_instance", .check] := by decide
+
+#print axioms runProg_refused
+#print axioms runProg_refusedTrace
+#print axioms runProg_witness
+#print axioms C15_calls_refuse
+#print axioms C15_witness_call_order
+
 end Bptk.C15
